@@ -288,9 +288,9 @@ def generate(ctx):
             yield case
     for case in list(_exh_series_cases())[ctx.shard::ctx.nshards]:
         yield case
-    for _ in range(ctx.n(12000, 240000)):
+    for _ in range(ctx.n(20000, 400000)):
         if rng.random() < 0.72:
-            zero = rng.random() < 0.04
+            zero = rng.random() < 0.025
             spec = _frame_spec(rng, min_rows=0 if zero else 1, min_cols=0 if zero else 1, max_rows=2 if zero else 6, max_cols=2 if zero else 6)
             lays = F.layouts(spec.dtypes)
             yield {'kind': 'frame', 'spec': spec, 'layout': rng.choice(lays), 'go': rng.random() < 0.15,
@@ -692,7 +692,8 @@ def _check_frame(case, ctx):
             ctx.tally('container_fill', 'frame:' + ('nothing_covered' if 'none' in (cr, cc) else 'fully_covered' if (cr, cc) == ('all', 'all')
                                                     else 'partly_covered'))
             ctx.tally('container_overlap', f'rows={cr},cols={cc}')
-    ctx.sample({'frame': spec.brief(), 'layout': F.layout_name(lay), 'ops': [canon.brief(o, 80) for o in case['ops']]})
+    if not ctx.current_is_probe:
+        ctx.sample({'frame': spec.brief(), 'layout': F.layout_name(lay), 'ops': [canon.brief(o, 80) for o in case['ops']]})
     _frame_battery(ctx, t, f, lay, case['ops'], None, ('frame', repr(spec), case.get('go')),
                    {'exh': False, 'row_kind': spec.row_kind, 'col_kind': spec.col_kind, 'go': bool(case.get('go'))})
 
